@@ -2,6 +2,7 @@
 import cpc_rules as P
 import chains
 import cowrite
+import generic_lints
 
 
 def run(facts, tier):
@@ -13,6 +14,7 @@ def run(facts, tier):
         ("pair codec", P.pair_codec, 1, "(row << 6) | col everywhere"),
         ("canonical chains", lambda fa: chains.obligations(fa, ["cpc"]), 11, "typed update overloads follow the cross-language canonicalisation contract"),
         ("couplings", lambda fa: cowrite.obligations(fa, ['u32_table']), 2, "fields that every mutator updates together (counters, extremes, cached values) are still updated together"),
+        ("duplicate operands", lambda fa: generic_lints.duplicate_conjuncts(fa, ('cpc/',)), 2, "no logical chain tests the same operand twice (copy-paste of the wrong peer)"),
     ):
         o = f(facts)
         obs += o
